@@ -120,6 +120,8 @@ pub fn header_pairs() -> Vec<(Item, Item)> {
         b(b"\x01"),
         arr(vec![arr(vec![u(1)])]),
         arr(vec![u(1), u(8)]),
+        arr(vec![u(8), u(1)]),
+        arr(vec![u(8), t("a"), u(11)]),
         arr(vec![u(5), u(6)]),
         arr(vec![t("")]),
         arr(vec![u(1), t(""), t("a")]),
@@ -340,6 +342,10 @@ pub fn key_pairs() -> Vec<(Item, Item)> {
         arr(vec![u(1), NULL]),
         arr(vec![t("a"), u(1), t("a")]),
         arr(vec![u(2), u(1), u(3), u(2)]),
+        // the fault anywhere but last
+        arr(vec![u(11), u(3)]),
+        arr(vec![u(3), u(0), t("k")]),
+        arr(vec![NULL, u(1)]),
     ] {
         p.push((u(4), v));
     }
@@ -562,7 +568,7 @@ pub fn msg_slots_small() -> Vec<Item> {
 }
 
 pub fn msg_slots_tiny() -> Vec<Item> {
-    vec![b(b""), map(vec![]), NULL, b(b"x"), arr(vec![sig_valid()]), arr(vec![arr(vec![b(b""), map(vec![]), b(b"ct")])])]
+    vec![b(b""), map(vec![]), NULL, b(b"x"), arr(vec![sig_valid()]), arr(vec![sig_valid(), arr(vec![])]), arr(vec![arr(vec![b(b""), map(vec![]), b(b"ct")])])]
 }
 
 /// Non-array items offered to every structure type.
